@@ -325,7 +325,16 @@ class GenB(GenA):
                 return None
             return {'c': 'uses', 'objs': [und[0]]}
         if k == 'create_container':
-            return {'c': 'create_container', 'name': f"late{rng.randrange(1000)}", 'cap': '1 mL', 'contents': []}
+            c = {'c': 'create_container', 'name': f"late{rng.randrange(1000)}", 'cap': '1 mL', 'contents': []}
+            r = rng.random()
+            if r < 0.2:
+                c['name'] = rng.choice(decl or ['V0'])          # a name already taken
+            elif r < 0.4:
+                c['cap'] = rng.choice(['-1 mL', '0 mL', '1 parsec'])   # a capacity the constructor refuses
+            elif r < 0.55:
+                liquids = self.subs_of(M.LIQUID)
+                c['cap'], c['contents'] = '1 mL', [[liquids[0], '5 mL']]    # contents that do not fit
+            return c
         op = {'create_solution': 'solution', 'create_solution_from': 'solution_from'}.get(k, k)
         save = self.p
         self.p = dict(self.p, q_w=[10, 0, 0, 0, 0, 0, 0, 0], fill_w=[10, 0, 0, 0, 0, 0, 0, 0, 0, 0], dil_w=[8, 3, 0, 0, 0])
